@@ -156,7 +156,9 @@ def raising(tree, **params):
     """
     removal = []
     for subtree in trees.preorder(tree):
-        if subtree != tree:
+        # only non-terminals are block nodes; a terminal can carry the flags
+        # of a unary block node that has been collapsed into it
+        if subtree != tree and trees.has_children(subtree):
             if subtree.data['split']:
                 if not subtree.data['head_block']:
                     removal.append(subtree)
